@@ -66,7 +66,8 @@ const (
 // Reopen closes and reopens the file.
 type Reopen struct {
 	// Mode: 0 = zero options, 1 = same options as creation,
-	// 2 = FlagUpdMaxSize with NewMax pages (0 = unbounded)
+	// 2 = FlagUpdMaxSize with NewMax pages (0 = unbounded),
+	// 3 = max size option of NewMax pages WITHOUT FlagUpdMaxSize (in-memory limit for an unbounded file, ignored by a bounded one)
 	Mode     int  `json:"mode,omitempty"`
 	NewMax   uint `json:"newmax,omitempty"`
 	Prealloc bool `json:"prealloc,omitempty"`
